@@ -58,3 +58,12 @@ Proof.
   repeat (first [apply Forall_nil | apply Forall_cons]); (split; [discriminate|]);
   cbn [In]; intros c Hc [K|[K|[]]]; subst; repeat (destruct Hc as [Hc|Hc]; [discriminate|]); destruct Hc.
 Qed.
+
+(* ---- executed instance (Q, extracted to OCaml and run against /repo) = the real-number functions
+   the theorems above are about: kernel-checked parametricity bridge (Bridge.v).  qL = map Q2R etc. ---- *)
+From Coq Require Import QArith Qreals.
+From PS Require Import Bridge.
+Local Close Scope Q_scope.
+Theorem C19_exec_time_series_row_transfer : forall (start bin : Q) (row : list bool), qTrain (time_series_row QOps start bin row) = time_series_row ROps (Q2R start) (Q2R bin) row.
+Proof. exact time_series_row_transfer. Qed.
+Print Assumptions C19_exec_time_series_row_transfer.
